@@ -924,7 +924,35 @@ func (m *lm) opDup() string {
 	h := ord[rapid.IntRange(1, len(ord)-1).Draw(m.rt, "uIdx")]
 	v := m.w.Arch.V[h]
 	m.dupOffer++
-	switch rapid.IntRange(0, 3).Draw(m.rt, "uKind") {
+	switch rapid.IntRange(0, 4).Draw(m.rt, "uKind") {
+	case 4: // one fresh transaction sealed twice (two sealers), both vertices - and sometimes the bare transaction - reach the node at once
+		tips := m.tipsOf(n)
+		if len(tips) == 0 {
+			return ""
+		}
+		m.label("dup:concurrent-two-sealings-of-fresh-tx")
+		p := tips[rapid.IntRange(0, len(tips)-1).Draw(m.rt, "uTip2")]
+		p2 := tips[rapid.IntRange(0, len(tips)-1).Draw(m.rt, "uTip3")]
+		from := m.pickSpender("uFrom")
+		to := m.pickReceiver("uTo", from)
+		a := m.w.Apply(sim.Op{K: "craft", Sealer: m.w.RogueWallet(0), From: from, To: to, Data: 5, L: m.w.OrderIndex(p), R: m.w.OrderIndex(p)}).Vertex
+		b := m.w.Apply(sim.Op{K: "craft-dup", Sealer: m.w.RogueWallet(1), V: m.w.OrderIndex(a.Hash), L: m.w.OrderIndex(p2)}).Vertex
+		sub := []sim.Op{{K: "deliver", N: n, V: m.w.OrderIndex(a.Hash)}, {K: "deliver", N: n, V: m.w.OrderIndex(b.Hash)}}
+		if rapid.Bool().Draw(m.rt, "uAlsoPropose") {
+			sub = append(sub, sim.Op{K: "repropose", N: n, V: m.w.OrderIndex(a.Hash)})
+		}
+		r := m.w.Apply(sim.Op{K: "batch", Sub: sub})
+		oks := 0
+		for _, s := range r.Sub {
+			m.noteResult("C03", s, "AddLeaf")
+			if s.Err == nil {
+				oks++
+			}
+		}
+		if oks > 1 {
+			m.addViol("C03", "transaction-accepted-twice", "node %d: the transaction of %s was offered at once as two differently sealed vertices%s and %d of the calls reported success", n, short(a.Hash), map[bool]string{true: " and as a bare proposal", false: ""}[len(sub) == 3], oks)
+		}
+		return fmt.Sprintf("dup-concurrent-two-sealings(node %d, %s and %s, %d calls) ok=%d", n, short(a.Hash), short(b.Hash), len(sub), oks)
 	case 0: // re-deliver a vertex (admitted, parked, checkpointed or dropped)
 		m.label("dup:redeliver-vertex")
 		d := m.w.Apply(sim.Op{K: "deliver", N: n, V: m.w.OrderIndex(h)})
